@@ -103,7 +103,7 @@ def gen_set(r, dots_ok):
             if not later:
                 break
             tgt = r.choice(later)
-            kind = r.choice(["include", "include_args", "ns_tag", "ns_body", "ns_inline", "ns_import", "api_ns", "api_tpl", "api_inc"])
+            kind = r.choice(["include", "include_args", "include_args_falsy", "ns_tag", "ns_body", "ns_inline", "ns_import", "api_ns", "api_tpl", "api_inc"])
             if kind == "ns_import" and any(x[0] == "ns_import" for x in f["refs"]):
                 kind = "ns_tag"
             uri = rel_spelling(r, f["path"], tgt["path"], dots_ok)
@@ -161,6 +161,9 @@ def emit(f, files):
             body.append('<%%include file="%s"/>' % uri)
         elif kind == "include_args":
             body.append('<%%include file="%s" args="pa=\'viaargs\'"/>' % uri)
+        elif kind == "include_args_falsy":
+            # an argument given in args= wins over the context also when its value is false
+            body.append('<%%include file="%s" args="pa=\'\'"/>' % uri)
         elif kind == "ns_tag":
             head.append('<%%namespace name="%s" file="%s"/>' % (ns, uri))
             body.append("${%s.tag()}" % ns)
@@ -241,15 +244,15 @@ class Model:
         w("{F:%s cv=%s%s " % (path, self.cv, (" pa=%s" % pa) if f["page"] else ""))
         w("own=DEF@%s parentkey=%s " % (path, top_inherits))
         for kind, uri, tgt in f["refs"]:
-            if kind in ("include", "include_args", "api_inc"):
+            if kind in ("include", "include_args", "include_args_falsy", "api_inc"):
                 t = self.resolve(uri, path)
                 tf = self.files[t]
                 p2 = None
                 if tf["page"]:
-                    p2 = "viaargs" if kind == "include_args" else self.dflt
-                    if self.quirk and kind != "include_args" and tf["inherit"]:
+                    p2 = "viaargs" if kind == "include_args" else "" if kind == "include_args_falsy" else self.dflt
+                    if self.quirk and kind not in ("include_args", "include_args_falsy") and tf["inherit"]:
                         p2 = "dflt"  # C07/include-inheriting-target-context-pagearg
-                    self.events.add("incargs" if kind == "include_args" else "incdefault")
+                    self.events.add("incargs" if kind.startswith("include_args") else "incdefault")
                 self.render(t, pa=p2, included=True)
             elif kind == "ns_tag" or kind == "api_ns" or kind == "api_tpl":
                 w("DEF@%s" % self.resolve(uri, path))
